@@ -16,3 +16,7 @@ require (
 )
 
 replace github.com/enbility/spine-go => /repo
+
+// a plain copy of the module (from the offline module cache) outside GOMODCACHE, so that the
+// race build may overlay logging/log.go (files beneath GOMODCACHE must not be replaced)
+replace github.com/enbility/ship-go => ./third_party/ship-go
